@@ -6,14 +6,14 @@
 using namespace vh;
 using ref::WOp;
 
-static const char *kW[] = {"object_begin", "object_end", "array_begin", "array_end", "boolean", "integer", "double", "string_with_len", "name_with_len", "bytes", "raw", "string", "name"};
+static const char *kW[] = {"object_begin", "object_end", "array_begin", "array_end", "boolean", "integer", "double", "string_with_len", "name_with_len", "bytes", "raw", "string", "name", "parser_to_writer"};
 
 static std::string op_text(const WOp &o) {
     switch (o.k) {
     case ref::W_BOOL: return fmt("boolean(%d)", (int)o.b);
     case ref::W_INT: return fmt("integer(%" PRId64 ")", o.i);
     case ref::W_DBL: return fmt("double(bits %016" PRIx64 ")", o.d);
-    case ref::W_STR: case ref::W_NAME: case ref::W_BYTES: case ref::W_RAW: case ref::W_STR_C: case ref::W_NAME_C:
+    case ref::W_STR: case ref::W_NAME: case ref::W_BYTES: case ref::W_RAW: case ref::W_STR_C: case ref::W_NAME_C: case ref::W_TO_WRITER:
         return fmt("%s(len %zu: %s)", kW[o.k], o.s.size(), ref::hex(o.s, 8).c_str());
     default: return kW[o.k];
     }
@@ -54,6 +54,19 @@ static bool do_write(binson_writer *w, const WOp &o, const Block &pl) {
     case ref::W_BYTES: return binson_write_bytes(w, pl.p, o.s.size());
     case ref::W_RAW: return binson_write_raw(w, pl.p, o.s.size());
     case ref::W_STR_C: return binson_write_string(w, (const char *)pl.p);
+    case ref::W_TO_WRITER: {
+        // a parser over [ <container> ], positioned on the container
+        Block doc(o.s.size() + 2);
+        doc.p[0] = 0x42;
+        memcpy(doc.p + 1, o.s.data(), o.s.size());
+        doc.p[o.s.size() + 1] = 0x43;
+        binson_state st[12];
+        binson_parser p;
+        p.state = st;
+        p.max_depth = 12;
+        if (!(binson_parser_init_array(&p, doc.p, doc.n) && binson_parser_go_into_array(&p) && binson_parser_next(&p))) return false;
+        return binson_parser_to_writer(&p, w);
+    }
     default: return binson_write_name(w, (const char *)pl.p);
     }
 }
@@ -63,8 +76,18 @@ static std::vector<WOp> gen_arbitrary_ops(Src &s, bool big) {
     unsigned n = 1 + s.u8() % 24;
     for (unsigned i = 0; i < n && !s.dry(); i++) {
         WOp o;
-        unsigned k = s.u8() % 16;
+        unsigned k = s.u8() % 17;
         switch (k) {
+        case 16: {  // a small valid container handed over with binson_parser_to_writer
+            GenCfg g;
+            g.max_nodes = 5;
+            g.max_depth = 2;
+            g.max_fan = 3;
+            Value t = gen_tree(s, g, s.flag());
+            o.k = ref::W_TO_WRITER;
+            o.s = ref::encode(t);
+            break;
+        }
         case 0: o.k = ref::W_OBJ_B; break;
         case 1: o.k = ref::W_OBJ_E; break;
         case 2: o.k = ref::W_ARR_B; break;
